@@ -112,6 +112,24 @@ func dualContour(r *vlib.Run) {
 		if len(zs) < 3 {
 			return
 		}
+		if rng.Intn(3) == 0 {
+			// the same DualContouring value has been used before with other options (an options struct is
+			// naturally reused: toggle a flag, mesh again); the checked call must see only its own options
+			final := *dc
+			switch rng.Intn(4) {
+			case 0:
+				dc.NoJitter = !final.NoJitter
+			case 1:
+				dc.Delta = final.Delta * 1.37
+			case 2:
+				dc.BufferSize = 1 + rng.Intn(5000)
+			default:
+				dc.Clip, dc.TriangleMode = !final.Clip, (final.TriangleMode+1)%3
+			}
+			dc.Mesh()
+			dc.NoJitter, dc.Delta, dc.BufferSize, dc.Clip, dc.TriangleMode = final.NoJitter, final.Delta, final.BufferSize, final.Clip, final.TriangleMode
+			c.Count("dc.meshes_on_a_reused_options_value", 1)
+		}
 		mesh, interior := dc.MeshInterior()
 		c.Count("dc.clip_meshes", 1)
 		if bufRows < len(zs) {
